@@ -98,6 +98,10 @@ def same_table(db, ctx):
             pushes = [render(p["recv"]) for p, _ in walk(body) if p.get("k") == "MethodCall" and p.get("method") == "push"]
             if set(pushes) >= {"keys", "values"}:
                 paired = True
+    # the same pairing written as one `.map(|(k, v)| (..k.., ..v..)).unzip()` over the map
+    for n, ps in walk(rl.hir):
+        if n.get("k") == "MethodCall" and n.get("method") == "unzip" and "replace_char_map" in render(n, x=True):
+            paired = True
     ctx.ob("read_rewrite_lists|pairwise-push", paired, "keys and values are pushed in the same loop iteration: %s" % paired, fn=rl)
     # the automaton is built from `keys`, replacements assigned from `values`
     built_from = None
